@@ -248,6 +248,23 @@ func (p c18) Gen(t *rapid.T, env *Env) (*Case, []*Out) {
 			w.Extra = append(w.Extra, simrt.Node{Path: abs, Kind: "f", Data: []byte("// OLD CONTENT\n")})
 		}
 	}
+	for _, p := range w.Opts.SchemaOut {
+		if p.V != "-" && rapid.IntRange(0, 9).Draw(t, "preexistingmapped") < 3 {
+			abs := p.V
+			if !filepath.IsAbs(abs) {
+				abs = filepath.Join(w.Cwd, abs)
+			}
+			dup := false
+			for _, n := range w.Extra {
+				if n.Path == abs {
+					dup = true
+				}
+			}
+			if !dup {
+				w.Extra = append(w.Extra, simrt.Node{Path: abs, Kind: "f", Data: []byte("// OLD MAPPED CONTENT\n")})
+			}
+		}
+	}
 	c := &Case{Prop: "C18"}
 	meta := c18Meta{OutAbs: outAbs}
 	var outs []*Out
@@ -817,7 +834,7 @@ func buildDefect(w *World, args []string, f *SFile, s site, kind, wrap string, b
 	add("defect "+kind+"@"+s.class, spec, c18Run{Kind: "defect", What: kind, Pos: s.class, MustFail: true, Ref: -1, Feature: feature})
 }
 
-var flagFaultKinds = []string{"mapping-no-equals", "mapping-no-equals-output", "mapping-no-equals-root", "unknown-flag", "no-package", "no-args", "missing-file-arg", "flag-missing-value", "same-file-two-packages"}
+var flagFaultKinds = []string{"output-path-is-directory", "output-parent-is-file", "mapping-no-equals", "mapping-no-equals-output", "mapping-no-equals-root", "unknown-flag", "no-package", "no-args", "missing-file-arg", "flag-missing-value", "same-file-two-packages"}
 
 func genFlagFault(t *rapid.T, w *World, args []string, add addFn, feature string) {
 	kind := rapid.SampledFrom(flagFaultKinds).Draw(t, "flagkind")
@@ -828,7 +845,31 @@ func buildFlagFault(w *World, args []string, kind string, add addFn, feature str
 	w2 := *w
 	o := w.Opts
 	a := args
+	writeSide := false
 	switch kind {
+	case "output-path-is-directory", "output-parent-is-file":
+		// the output cannot be written: the run cannot end with status 0 (a write-side
+		// failure: only T, S1 and "must fail" are judged)
+		if o.Output == "" || o.Output == "-" {
+			o.Output = "out/gen.go"
+		}
+		abs := o.Output
+		if !filepath.IsAbs(abs) {
+			abs = filepath.Join(w.Cwd, abs)
+		}
+		var ex []simrt.Node
+		for _, n := range w.Extra {
+			if n.Path != abs {
+				ex = append(ex, n)
+			}
+		}
+		if kind == "output-path-is-directory" {
+			ex = append(ex, simrt.Node{Path: abs, Kind: "d"})
+		} else {
+			ex = append(ex, simrt.Node{Path: filepath.Dir(abs), Kind: "f", Data: []byte("not a directory\n")})
+		}
+		w2.Extra = ex
+		writeSide = true
 	case "mapping-no-equals":
 		o.RawTrailing = []string{"--schema-package", "https://example.com/nomapping"}
 	case "mapping-no-equals-output":
@@ -857,7 +898,7 @@ func buildFlagFault(w *World, args []string, kind string, add addFn, feature str
 		a = []string{w.ArgFor(w.Files[0], "rel"), w.ArgFor(w.Files[1], "rel")}
 	}
 	w2.Opts = o
-	add("flag "+kind, w2.Spec("", nil, a), c18Run{Kind: "flag", What: kind, MustFail: true, Ref: -1, Feature: feature})
+	add("flag "+kind, w2.Spec("", nil, a), c18Run{Kind: "flag", What: kind, MustFail: true, WriteSide: writeSide, Ref: -1, Feature: feature})
 }
 
 // hasRecursiveCombinator reports a reference cycle that runs through an
